@@ -60,6 +60,12 @@ def run(ctx):
                 ags = [st["rv"]["variant"] for b in (clo.blocks if clo else []) for st in b["stmts"] if st["k"] == "assign" and st["rv"]["k"] == "aggr" and st["rv"].get("agg") == "adt"]
                 order.append(ags[0] if ags else "?")
         ctx.ob("R2", "predicate_data:pop-order=len,value_ix,slot_ix", order == ["PredDataLen", "PredDataValueIx", "PredDataSlotIx"], "%s:%d" % (f.file, f.line), "pops tagged %s" % order, f)
+        rows = [(v, at[-1] if at else "") for _, v, at in M.return_table(prog, f)]
+        errs = [l for v, l in rows if v == "<propagate error>"]
+        kinds = sorted(re.sub(r"^err\((?:essential_vm::|int::)?([\w:]+)\(.*$", r"\1", l) for l in errs)
+        want_k = sorted(["stack::Stack::pop"] * 3 + ["try_from", "access::range_from_start_len", "access::resolve_predicate_data_range", "stack::Stack::extend"])
+        ctx.ob("R2", "predicate_data:fails-only-where-a-pop,the-range,the-lookup-or-the-push-fails", len(rows) == 8 and kinds == want_k and sum(1 for v, _ in rows if v.startswith("Result::Ok{")) == 1,
+               "%s:%d" % (f.file, f.line), "failing returns propagate from %s; other returns %s" % (kinds, [v[:40] for v, _ in rows if v != "<propagate error>"]), f)
         E.has_call(ctx, "R2", "predicate_data:range-checked", prog, f, r"access::range_from_start_len$", ["^%s$" % POP, "^%s$" % POP])
         E.has_call(ctx, "R2", "predicate_data:resolved-by-get", prog, f, r"access::resolve_predicate_data_range$",
                    ["^this_predicate_data$", r"^int::try_from\(%s\)\?$" % POP, r"^essential_vm::access::range_from_start_len\(%s, %s\)\?$" % (POP, POP)])
@@ -143,7 +149,8 @@ def run(ctx):
                             t_ = pv.of_local(pl.proj[-1]["l"])
                             ix = t_.a if t_.kind == "const" else M.render(t_)
                         stores.append((ix, M.render(pv.of_rvalue(st["rv"]))))
-        ctx.ob("R3", "signature:recovery-id-is-word-8", len(stores) == 1 and stores[0][0] == 8 and "serialize_compact(sig).0" in stores[0][1], "%s:%d" % (sg.file, sg.line), "stores into the 9-word array: %s" % stores, sg)
+        ctx.ob("R3", "signature:recovery-id-is-word-8", len(stores) == 1 and stores[0][0] == 8 and
+               re.match(r"^int::from\(<T as std::convert::Into<U>>::into\(secp256k1::ecdsa::recovery::RecoverableSignature::serialize_compact\(sig\)\.0\)\)$", stores[0][1]) is not None, "%s:%d" % (sg.file, sg.line), "stores into the 9-word array: %s" % stores, sg)
         E.has_call(ctx, "R3", "signature:words-0..8", prog, sg, r"copy_from_slice$", [r"index_mut\(repeat\{0\}, std::ops::RangeTo::RangeTo\{8\}\)$", r"^essential_types::convert::word_8_from_u8_64\("])
     for fname, data_rx in [("essential_vm::crypto::sha256", r"^essential_vm::crypto::pop_bytes\(stack\)\?$"), ("essential_vm::access::sha256", r"^bytes$")]:
         f = prog.fn(fname)
